@@ -93,11 +93,11 @@ void mixer_apply(struct mixer *m);
             "sample_t": decl("type", "sample_t", [], ["sample_t"]),
             "frame_t": decl("type", "frame_t", ["sample_t"], ["frame_t"], edges=["VectorElement"]),
             "mixer": decl("type", "mixer", ["frame_t"], ["mixer"]),
-            "elem_t": decl("type", "elem_t", [], ["elem_t"]),
+            "elem_t": decl("type", "elem_t", [], ["elem_t"], blockable=True),
             "row_t": decl("type", "row_t", ["elem_t"], ["row_t"], edges=["ArrayElement"]),
             "grid": decl("type", "grid", ["row_t"], ["grid"]),
             "tick_t": decl("type", "tick_t", [], ["tick_t"]),
-            "timer": decl("type", "timer", ["tick_t"], ["timer"], edges=["Pointee"]),
+            "timer": decl("type", "timer", ["tick_t"], ["timer"], edges=["Pointee"], blockable=True),
             "byte_t": decl("type", "byte_t", [], ["byte_t"]),
             "getter_t": decl("type", "getter_t", ["byte_t"], ["getter_t"], edges=["FunctionReturn"]),
             "source": decl("type", "source", ["getter_t"], ["source"]),
@@ -367,7 +367,13 @@ def replay_family(res, tier, name, fam):
             for p in c["pats"]:
                 a += [FLAG[p["flag"]], p["re"]]
         for b in c["bl"]:
-            a += ["--blocklist-item", b]
+            if by_file and i % 3 == 2:
+                # the blocklist names the file, the allowlist (possibly the very same declaration) the name:
+                # the blocklist wins
+                a += ["--blocklist-file", ".*/d_%s\\.h" % b]
+                c["bl_by_file"] = True
+            else:
+                a += ["--blocklist-item", b]
         if not c["rec"]:
             a.append("--no-recursive-allowlist")
         if not c.get("fns", True):
@@ -398,8 +404,8 @@ def replay_family(res, tier, name, fam):
             blocked_names |= set(fam["decls"][b]["emits"])
         missing = sorted(want - set(got))
         extra = sorted(n for n in set(got) - want if not helper_name(n))
-        shape = "%s:rec=%s:bl=%d:fns=%s" % ("file" if c.get("by_file") else "+".join(sorted(p["flag"] for p in c["pats"])),
-                                          c["rec"], len(c["bl"]), c.get("fns", True))
+        shape = "%s:rec=%s:bl=%d%s:fns=%s" % ("file" if c.get("by_file") else "+".join(sorted(p["flag"] for p in c["pats"])),
+                                            c["rec"], len(c["bl"]), "f" if c.get("bl_by_file") else "", c.get("fns", True))
         if blocked_names & set(got):
             res.violation("blocklisted-emitted:" + shape, {"family": name, "case": c, "names": sorted(blocked_names & set(got))})
         elif missing:
